@@ -413,6 +413,90 @@ def _converted_call(repo):
     return clist([cstr(b) for b in ctx])
 
 
+def _partial_branch(repo):
+    """The functools.partial branch of converted_call -> (keyword layers, positional order) as Gallina lists.
+    Recognised: new_kwargs built by `X = {}` followed by `[if S is not None:] X = S.copy()` (while X is
+    still empty) / `[if S is not None:] X.update(S)`, or `X = dict(S [or {}], **S')`, or `X = {**S, **S'}`
+    with S in {f.keywords, kwargs}; new_args = <f.args | args> + <f.args | args>; logging calls ignored;
+    return converted_call(f.func, new_args, new_kwargs, caller_fn_scope=caller_fn_scope, options=options)."""
+    path = os.path.join(repo, 'malt', 'impl', 'api.py')
+    with open(path) as f:
+        tree = ast.parse(f.read())
+    cc = [n for n in tree.body if isinstance(n, ast.FunctionDef) and n.name == 'converted_call'][0]
+    blocks = [s for s in cc.body if isinstance(s, ast.If) and ast.unparse(s.test) == 'isinstance(f, functools.partial)']
+    if len(blocks) != 1 or blocks[0].orelse:
+        _fail(cc, 'the `if isinstance(f, functools.partial):` block', 'api.py')
+    # the partial branch must come before the builtin branch (a partial of a builtin is unwrapped first)
+    order = [ast.unparse(s.test) for s in cc.body if isinstance(s, ast.If)]
+    if order.index('isinstance(f, functools.partial)') > order.index('inspect_utils.isbuiltin(f)'):
+        _fail(blocks[0], 'partial branch after the builtin branch', 'api.py')
+
+    def src(node):
+        t = ast.unparse(node)
+        if t in ('f.keywords', '(f.keywords or {})', 'f.keywords or {}'):
+            return 'LPartial'
+        if t in ('kwargs', '(kwargs or {})', 'kwargs or {}'):
+            return 'LCall'
+        return None
+    kw_var = args_var = None
+    layers = None
+    arg_order = None
+    ret = None
+    for s in blocks[0].body:
+        if isinstance(s, ast.Expr) and isinstance(s.value, ast.Call) and ast.unparse(s.value.func) == 'logging.log':
+            continue
+        guard = None
+        inner = s
+        if isinstance(s, ast.If) and not s.orelse and len(s.body) == 1 and isinstance(s.test, ast.Compare) \
+                and len(s.test.ops) == 1 and isinstance(s.test.ops[0], ast.IsNot) \
+                and ast.unparse(s.test.comparators[0]) == 'None':
+            guard = src(s.test.left)
+            inner = s.body[0]
+            if guard is None:
+                _fail(s, 'partial branch guard', 'api.py')
+        if isinstance(inner, ast.Assign) and len(inner.targets) == 1 and isinstance(inner.targets[0], ast.Name):
+            t, v = inner.targets[0].id, inner.value
+            if isinstance(v, ast.Dict) and not v.keys and guard is None and layers is None:
+                kw_var, layers = t, []
+                continue
+            if isinstance(v, ast.Dict) and v.keys and all(k is None for k in v.keys) and guard is None and layers is None \
+                    and all(src(x) for x in v.values):
+                kw_var, layers = t, [src(x) for x in v.values]
+                continue
+            if isinstance(v, ast.Call) and ast.unparse(v.func) == 'dict' and guard is None and layers is None \
+                    and len(v.args) <= 1 and all(k.arg is None for k in v.keywords) \
+                    and all(src(x) for x in v.args) and all(src(k.value) for k in v.keywords):
+                kw_var, layers = t, [src(x) for x in v.args] + [src(k.value) for k in v.keywords]
+                continue
+            if isinstance(v, ast.Call) and isinstance(v.func, ast.Attribute) and v.func.attr == 'copy' and not v.args \
+                    and t == kw_var and layers == [] and src(v.func.value) and guard in (None, src(v.func.value)):
+                layers = [src(v.func.value)]
+                continue
+            if isinstance(v, ast.BinOp) and isinstance(v.op, ast.Add) and guard is None and arg_order is None:
+                names = {'f.args': 'LPartial', 'args': 'LCall'}
+                l, r = names.get(ast.unparse(v.left)), names.get(ast.unparse(v.right))
+                if l and r:
+                    args_var, arg_order = t, [l, r]
+                    continue
+            _fail(inner, 'partial branch assignment ' + ast.unparse(inner), 'api.py')
+        if isinstance(inner, ast.Expr) and isinstance(inner.value, ast.Call) and isinstance(inner.value.func, ast.Attribute) \
+                and inner.value.func.attr == 'update' and ast.unparse(inner.value.func.value) == kw_var \
+                and len(inner.value.args) == 1 and not inner.value.keywords and layers is not None:
+            l = src(inner.value.args[0])
+            if l is None or guard not in (None, l):
+                _fail(inner, 'partial branch update', 'api.py')
+            layers.append(l)
+            continue
+        if isinstance(inner, ast.Return) and guard is None:
+            ret = ast.unparse(inner.value)
+            continue
+        _fail(s, 'partial branch statement ' + ast.unparse(s).split('\n')[0], 'api.py')
+    want = 'converted_call(f.func, %s, %s, caller_fn_scope=caller_fn_scope, options=options)' % (args_var, kw_var)
+    if layers is None or arg_order is None or ret != want:
+        _fail(blocks[0], 'partial branch does not end in %s' % want, 'api.py')
+    return clist(layers), clist(arg_order)
+
+
 def translate(repo):
     path = os.path.join(repo, 'malt', 'operators', 'py_builtins.py')
     with open(path) as f:
@@ -500,6 +584,11 @@ def translate(repo):
     out.append('Definition ctx_gen : list (string * bool) := %s.' % _frames(funcs))
     out.append('(* builtins that converted_call routes to the *_in_original_context functions *)')
     out.append('Definition routed_gen : list string := %s.' % _converted_call(repo))
+    kwl, argl = _partial_branch(repo)
+    out.append('(* functools.partial branch of converted_call: dict-update layers of new_kwargs, order of new_args *)')
+    out.append('Require Import MV.Builtins.Partial.')
+    out.append('Definition partial_kw_layers_gen : list layer := %s.' % kwl)
+    out.append('Definition partial_arg_order_gen : list layer := %s.' % argl)
     return '\n'.join(out) + '\n'
 
 
